@@ -157,20 +157,21 @@ def wiring():
             return [E.BasicLine(10, S(E.BasicOnBrkGoStatement(20), E.BasicOnErrGoStatement(0))), E.BasicLine(0, S("h0")), E.BasicLine(20, S("h1"))]
         for name, fac, exc in (("missing-target", missing, compiler.ParseError), ("label-above-32699", toolarge, V.LineNumberTooLargeException),
                                ("two-ON-ERR", twoerr, compiler.ParseError), ("two-ON-BRK", twobrk, compiler.ParseError), ("one-ERR-one-BRK", one_each, None)):
-            for filt in (False, True):
+            for filt, suffix in itertools.product((False, True), (True, False)):
                 got = None
                 text = None
                 try:
-                    text = convert_ast(fac, add_standard_prefix=False, filter_unused_linenum=filt)
+                    text = convert_ast(fac, add_standard_prefix=False, filter_unused_linenum=filt, add_suffix=suffix)
                 except Exception as e:  # noqa
                     got = type(e)
                 ok = got is exc
                 detail = "refused with %s" % exc.__name__ if exc else "converted"
-                if exc is None and ok:
+                if exc is None and ok and suffix:
                     tail = [norm(x) for x in text.strip("\n").split("\n")[-3:]]
                     ok = tail == ["32700 ERNO := errnum", "IF ERNO = 2 THEN 20", "GOTO 0"] and text.count("32700 ") == 1
                     got = tail
-                res.append(ob("wiring/%s,filter=%d" % (name, filt), ok, detail, getattr(got, "__name__", got)))
+                # a refusal is a statement about the program, not about the options it is converted with
+                res.append(ob("wiring/%s,filter=%d%s" % (name, filt, "" if suffix else ",no-suffix"), ok, detail, getattr(got, "__name__", got)))
         return res
     out += guarded("wiring", run)
     return out
